@@ -31,16 +31,21 @@ LEVEL_NOTE = ("LOCK SKELETONS (translator go/cmd/pins/c09_locks.go -> Gen/StoreL
               "expression = lock name; all mailbox/bucket locks are ONE name, conservative), channel operations, calls inside the "
               "table, calls of function-typed parameters, the memory store's instrumentation points, and the if/switch/select/"
               "loop/defer/return structure around them; everything else is pruned. lock_acquisitions_not_nested evaluates the "
-              "discipline on those tables (an abstract run over the set of held locks, Model/ConcSk.v:disciplined — the checker IS "
-              "the definition; sanity examples show it rejects seed C09-q1's nesting, a rendezvous under a lock, a store method "
-              "called under the bucket lock and a missing unlock); it holds for whatever shape the source has and fails only when "
-              "the discipline is broken or the source uses a construct the translator does not read (goto, labelled break, defer "
-              "in a branch, go func literal with synchronisation). One named exception: the file store receives the serial number "
-              "of a new id from its counter channel under the bucket lock (mbox.newMessage -> generateID); the theorem also pins "
-              "that the channel's sender is a goroutine that only sends. mem_lock_skeleton_pinned is deliberately strict: ANY "
-              "change of the memory store's skeleton (a moved hook, a new call between lock sites) fails it — the model then no "
-              "longer transcribes the source and has to be revisited. Not covered by the skeletons: which lock OBJECT an "
-              "expression denotes (two different mailboxes' locks are one name), lock use in other packages' callbacks. "
+              "discipline on those tables (an abstract run over the locks held, Model/ConcSk.v:disciplined — the checker IS the "
+              "definition; sanity examples show it rejects seed C09-q1's nesting, a rendezvous under a lock, a store method "
+              "called under the bucket lock, a missing unlock and a non-leaf lock taken under another, and accepts a leaf lock "
+              "[released by the very next synchronisation event] taken under the bucket lock); it holds for whatever shape the "
+              "source has and fails only when the discipline is broken or the source uses a construct the translator does not "
+              "read (goto, labelled break, defer in a branch, go func literal with synchronisation). One named exception: the "
+              "file store receives the serial number of a new id from its counter channel under the bucket lock (mbox.newMessage "
+              "-> generateID); if that channel is in use the theorem also requires its sender to be a goroutine that only sends. "
+              "mem_lock_skeleton_pinned compares EXPANDED skeletons (every helper call and every withMailbox replaced by what it "
+              "runs), per store operation / enforcer / constructor: extracting or inlining a helper leaves it true (checked "
+              "against seeded/refactors stores/r1-r3 and set2-lifecycle/r2,r4: both theorems stay true; against seed C09-q1: "
+              "lock_acquisitions_not_nested fails); a moved lock site, rendezvous or instrumentation point of the memory store "
+              "fails it — the model then no longer transcribes the source and has to be revisited. Not covered by the "
+              "skeletons: which lock OBJECT an expression denotes (two different mailboxes' locks are one name), lock use in "
+              "other packages' callbacks. "
               "SCAN STREAM: the retention scanner is a client of the store, not part of the store models; cases of kind 'scan' are "
               "judged by the clause directly (scan = a walk + removals of the expired messages it saw: at the end every fresh "
               "message, of the prefix or delivered meanwhile, is listed and every expired one is gone; verdicts "
